@@ -226,6 +226,15 @@ func (fc *FnCtx) trBinary(st *State, x *ast.BinaryExpr) Val {
 	}
 	a := fc.tr(st, x.X)
 	b := fc.tr(st, x.Y)
+	if (a.S == SOpaque || b.S == SOpaque) && x.Op != token.EQL && x.Op != token.NEQ {
+		// floating point and other unmodelled operands: the result is unknown
+		switch x.Op {
+		case token.LSS, token.LEQ, token.GTR, token.GEQ:
+			return boolVal(fc.declare("opaquecmp", SBool))
+		}
+		t := fc.typeOf(x)
+		return fc.freshVal(st, "opaqueop", sortOf(t), t)
+	}
 	switch x.Op {
 	case token.EQL, token.NEQ:
 		var t string
@@ -287,6 +296,8 @@ func (fc *FnCtx) isNilTerm(st *State, o Val) string {
 		return "(= (slen " + o.T + ") 0)"
 	case SIL:
 		return "(= (illen " + o.T + ") 0)"
+	case SLL:
+		return "(= " + o.Rec + " 0)"
 	case SRec, SMap, SBuf, SScan:
 		if o.Rec != "" {
 			k := o.Rec + ".$nil"
